@@ -24,11 +24,11 @@ func init() {
 			"reused after a no-reply packet, or a fault fired. Distinct = hash of per-operation (kind, reply count, rcode, batch flag).",
 		Assumptions: []string{
 			"goroutine interleaving is whatever the Go scheduler does with GOMAXPROCS=1 for the seeded arrival pattern plus seeded yields at send points; it is not chosen at lock granularity",
-			"only the UDP transport is simulated; TCP/TLS/DoH/DoQ framing and stream ordering are not covered by this check",
+			"the owned UDP and TCP listeners are simulated (stream clients pipeline frames, split writes, read late or through small windows, close or reset); TLS, DoH and DoQ are not",
 		},
 		Components: kit.Components{
-			Real: []string{"server UDP listener, engine, slab cache, batch reader/sender (recvmmsg/sendmmsg code paths), inline serve and replay", "Server.ServeRaw / ServeRawInline / ServeRawReplay, whole middleware chain, cache, resolver (shared lookups)"},
-			Stub: []string{"kernel sockets and the recvmmsg/sendmmsg system calls (simsock + verifunix)", "upstream network (simnet) and authoritative servers (authsim)", "TCP, TLS, DoH, DoQ listeners (not started)"},
+			Real: []string{"server UDP listener, engine, slab cache, batch reader/sender (recvmmsg/sendmmsg code paths), inline serve and replay", "server TCP listener, tcpEngine, tcpStream (framing, staging, flush)", "Server.ServeRaw / ServeRawInline / ServeRawReplay, whole middleware chain, cache, resolver (shared lookups)"},
+			Stub: []string{"kernel sockets and the recvmmsg/sendmmsg system calls (simsock + verifunix)", "upstream network (simnet) and authoritative servers (authsim)", "TCP sockets (simsock streams under the real tcpEngine/tcpStream)", "TLS, DoH, DoQ listeners (not started)"},
 		},
 		Gen:      func(r *kit.RNG, tier string) any { return genIng(r, "c10") },
 		Blank:    func() any { return &IngScenario{} },
@@ -139,10 +139,80 @@ func c10Check(x *ingRun, tr *kit.Trace, res *kit.Result) {
 			}
 		}
 	}
+	// stream clients: whole frames, own bytes, one per query, in query order
+	for ci, cr := range x.conns {
+		if cr.Partial > 0 && !cr.Conn.Reset && cr.Conn.CloseAtMs == 0 {
+			res.Fail("C10/partial-frame-on-stream", "connection %d: the stream ended with %d bytes of an incomplete reply frame although the client neither closed nor reset early", ci, cr.Partial)
+			return
+		}
+		next := 0 // replies must match the connection's queries in order
+		for ri, raw := range cr.Replies {
+			if end := ingMsgEnd(raw); end != len(raw) {
+				res.Fail("C10/foreign-bytes-in-reply", "connection %d reply %d: the frame is %d bytes but the message in it ends at %d", ci, ri, len(raw), end)
+				return
+			}
+			m := new(dns.Msg)
+			if err := m.Unpack(raw); err != nil {
+				res.Fail("C10/foreign-bytes-in-reply", "connection %d reply %d does not parse: %v", ci, ri, err)
+				return
+			}
+			matched := -1
+			for k := next; k < len(cr.Frames); k++ {
+				f := cr.Frames[k]
+				if f.Op.Kind == "response" || f.Op.ID != m.Id {
+					continue
+				}
+				if len(m.Question) == 1 && m.Question[0].Name != f.QName {
+					continue
+				}
+				if len(m.Question) == 0 && f.WellFormed {
+					continue
+				}
+				matched = k
+				break
+			}
+			if matched < 0 {
+				// does it answer an EARLIER query of this connection (order) or nobody's?
+				for k := 0; k < next && k < len(cr.Frames); k++ {
+					f := cr.Frames[k]
+					if f.Op.ID == m.Id && len(m.Question) == 1 && m.Question[0].Name == f.QName {
+						res.Fail("C10/stream-replies-out-of-order", "connection %d: reply %d (id %d, %s) answers query %d of the connection, but replies up to query %d had already been delivered: pipelined replies must arrive in query order", ci, ri, m.Id, f.QName, k, next-1)
+						return
+					}
+				}
+				res.Fail("C10/reply-to-wrong-client", "connection %d (client %d): reply %d (id %d, question %v) answers no query sent on this connection\n%s", ci, cr.Conn.Client, ri, m.Id, m.Question, m)
+				return
+			}
+			f := cr.Frames[matched]
+			next = matched + 1
+			tr.Shape(fmt.Sprintf("tcp:%s:%d", f.Op.Kind, m.Rcode))
+			if f.WellFormed {
+				base := strings.ToLower(f.QName)
+				for _, rr := range m.Answer {
+					owner := strings.ToLower(rr.Header().Name)
+					if a, ok := rr.(*dns.A); ok && strings.HasPrefix(owner, "host") {
+						var k int
+						fmt.Sscanf(owner, "host%d.", &k)
+						if owner != base || a.A.String() != ingHostAddr(k) {
+							res.Fail("C10/foreign-bytes-in-reply", "connection %d: query %s was answered with %s", ci, f.QName, rr.String())
+							return
+						}
+					}
+					if (rr.Header().Rrtype == dns.TypeA || rr.Header().Rrtype == dns.TypeTXT) && owner != base {
+						res.Fail("C10/foreign-bytes-in-reply", "connection %d: query %s was answered with a record of %s", ci, f.QName, owner)
+						return
+					}
+				}
+			}
+		}
+		if len(cr.Replies) > 1 {
+			res.Probes["tcp:pipelined-replies"]++
+		}
+	}
 	if noReplyThenReuse {
 		res.Probes["reply-after-no-reply-packet"]++
 	}
-	if x.g.K.MaxBatch > 1 || x.counters["inline_handoff"] > 0 || noReplyThenReuse || x.counters["overflow_served"] > 0 {
+	if x.g.K.MaxBatch > 1 || x.counters["inline_handoff"] > 0 || noReplyThenReuse || x.counters["overflow_served"] > 0 || len(x.conns) > 0 {
 		res.Nontrivial = true
 	}
 }
